@@ -75,7 +75,7 @@ def run(ctx, build, verdict, ev):
     nviol = 0
     stats = {"sequences": 0, "steps": 0, "ops": {}, "history_free_checks": 0, "idempotence_checks": 0, "restart_checks": 0, "copy_graph_checks": 0, "isolation_checks": 0, "function_linear_engines": 0}
     distinct = set()
-    for seq_no in range(ctx.n(120, 4000)):
+    for seq_no in range(ctx.n(400, 10000)):
         desc = E.gen_engine(ctx.rng, profile=ctx.rng.choice(["algebraic", "algebraic", "mixed"]), activations=ACTS, weighted=True)
         if ctx.rng.random() < 0.5:
             for o in desc["outputs"]:
